@@ -323,7 +323,8 @@ class StringValueNode(ValueNode):
         :return: a human-readable representation of the value
         :rtype: str
         """
-        return f'"{self.value}"'
+        escaped_value = self.value.replace("\\", "\\\\").replace('"', '\\"')
+        return f'"{escaped_value}"'
 
 
 class ListValueNode(ValueNode):
